@@ -22,6 +22,11 @@ pub enum Op {
     CloneRevIter(u8),
     IntoOwnedRevIter(u8),
     CheckNeedle(u8),
+    /// Searches through ONE reusable buffer: haystack `hi` (cut or padded to the buffer's fixed
+    /// length) is copied into the buffer, which is then searched: same address, same length,
+    /// different contents from one search to the next (the usual read-into-a-buffer loop).
+    /// (finder, haystack, 0 = find / 1 = rfind / 2 = find_iter / 3 = rfind_iter)
+    Buf(u8, u8, u8),
 }
 
 #[derive(Clone, Debug, PartialEq)]
@@ -40,6 +45,7 @@ struct IterSlot<I> {
 
 #[derive(Default)]
 pub struct HistStats {
+    pub buf_searches: u64,
     pub searches: u64,
     pub steps: u64,
     pub clones_of_partial: u64,
@@ -60,6 +66,23 @@ pub fn run_history(h: &History, st: &mut HistStats) -> Result<(), String> {
     let rev: Vec<Vec<usize>> = hays.iter().map(|x| FinderRev::new(&needle_model).rfind_iter(x).take(cap(x)).collect()).collect();
     let efind: Vec<Option<usize>> = hays.iter().map(|x| Finder::new(&needle_model).find(x)).collect();
     let erfind: Vec<Option<usize>> = hays.iter().map(|x| FinderRev::new(&needle_model).rfind(x)).collect();
+
+    // the reusable buffer: fixed length W, contents = haystack cut / padded to W
+    let w = hays.iter().map(|x| x.len()).find(|l| *l > 0).unwrap_or(0);
+    let windowed: Vec<Vec<u8>> = hays
+        .iter()
+        .map(|x| {
+            let mut v: Vec<u8> = x.iter().copied().take(w).collect();
+            let pad = x.last().copied().unwrap_or(0x7E);
+            v.resize(w, pad);
+            v
+        })
+        .collect();
+    let bfwd: Vec<Vec<usize>> = windowed.iter().map(|x| Finder::new(&needle_model).find_iter(x).take(cap(x)).collect()).collect();
+    let brev: Vec<Vec<usize>> = windowed.iter().map(|x| FinderRev::new(&needle_model).rfind_iter(x).take(cap(x)).collect()).collect();
+    let befind: Vec<Option<usize>> = windowed.iter().map(|x| Finder::new(&needle_model).find(x)).collect();
+    let berfind: Vec<Option<usize>> = windowed.iter().map(|x| FinderRev::new(&needle_model).rfind(x)).collect();
+    let mut buf: Vec<u8> = vec![0u8; w];
 
     let mut owned_f: Vec<Finder<'static>> = Vec::new();
     let mut owned_r: Vec<FinderRev<'static>> = Vec::new();
@@ -86,6 +109,24 @@ pub fn run_history(h: &History, st: &mut HistStats) -> Result<(), String> {
             let r = $f.rfind(&hays[$hi]);
             if r != erfind[$hi] {
                 return Err(format!("{} #{}: rfind(haystack {}) = {:?}, but a fresh finder returns {:?}", $what, $k, $hi, r, erfind[$hi]));
+            }
+        }};
+    }
+    macro_rules! bufsearch {
+        ($f:expr, $r:expr, $hi:expr, $mode:expr, $what:expr, $k:expr) => {{
+            st.searches += 1;
+            st.buf_searches += 1;
+            buf.copy_from_slice(&windowed[$hi]);
+            let b: &[u8] = std::hint::black_box(&buf[..]);
+            let (got, exp): (Vec<i64>, Vec<i64>) = match $mode % 4 {
+                0 => (vec![$f.find(b).map_or(-1, |x| x as i64)], vec![befind[$hi].map_or(-1, |x| x as i64)]),
+                1 => (vec![$r.rfind(b).map_or(-1, |x| x as i64)], vec![berfind[$hi].map_or(-1, |x| x as i64)]),
+                2 => ($f.find_iter(b).take(w + 2).map(|x| x as i64).collect(), bfwd[$hi].iter().map(|x| *x as i64).collect()),
+                _ => ($r.rfind_iter(b).take(w + 2).map(|x| x as i64).collect(), brev[$hi].iter().map(|x| *x as i64).collect()),
+            };
+            if got != exp {
+                let name = ["find", "rfind", "find_iter", "rfind_iter"][($mode % 4) as usize];
+                return Err(format!("{} #{}: {} over the reused buffer holding haystack {} (cut/padded to {} bytes) = {:?}, but a fresh finder returns {:?}", $what, $k, name, $hi, w, got, exp));
             }
         }};
     }
@@ -219,6 +260,11 @@ pub fn run_history(h: &History, st: &mut HistStats) -> Result<(), String> {
                             owned_rit.push(c);
                         }
                     }
+                    Op::Buf(f, hi, mode) => {
+                        let fi = (*f as usize) % fs.len();
+                        let ri = (*f as usize) % rs.len();
+                        bufsearch!(fs[fi], rs[ri], (*hi as usize) % hays.len(), *mode, "borrowed finder", k);
+                    }
                     Op::CheckNeedle(f) => {
                         let fi = (*f as usize) % fs.len();
                         if fs[fi].needle() != &needle_model[..] {
@@ -291,6 +337,11 @@ pub fn run_history(h: &History, st: &mut HistStats) -> Result<(), String> {
                     owned_f.push(c);
                 }
             }
+            Op::Buf(f, hi, mode) => {
+                if let (Some(fi), Some(ri)) = (pick!(owned_f, *f), pick!(owned_r, *f)) {
+                    bufsearch!(owned_f[fi], owned_r[ri], (*hi as usize) % hays.len(), *mode, "owned finder after the needle buffer was freed", k);
+                }
+            }
             Op::CheckNeedle(f) => {
                 if let Some(fi) = pick!(owned_f, *f) {
                     if owned_f[fi].needle() != &needle_model[..] {
@@ -333,6 +384,7 @@ pub fn parse_op(s: &str) -> Option<Op> {
     let args: Vec<u8> = s[lp + 1..s.len() - 1].split(',').filter_map(|x| x.trim().parse().ok()).collect();
     let a = *args.get(0)?;
     let b = args.get(1).copied().unwrap_or(0);
+    let c = args.get(2).copied().unwrap_or(0);
     Some(match name {
         "Find" => Op::Find(a, b),
         "Rfind" => Op::Rfind(a, b),
@@ -348,6 +400,7 @@ pub fn parse_op(s: &str) -> Option<Op> {
         "CloneRevIter" => Op::CloneRevIter(a),
         "IntoOwnedRevIter" => Op::IntoOwnedRevIter(a),
         "CheckNeedle" => Op::CheckNeedle(a),
+        "Buf" => Op::Buf(a, b, c),
         _ => return None,
     })
 }
